@@ -200,6 +200,54 @@ def _decomposes(mat, sc, k, side):
     return True
 
 
+def truncated_svd_rule(run, repo, tier):
+    """D6: utils.truncated_svd interpreted directly (it is the truncation kernel of the HOSVD-based routines)"""
+    from . import mx
+    from .shape import NpIntSize
+    entry = 'utils.truncated_svd'
+    if entry not in repo.fns:
+        raise AnalysisError('utils.truncated_svd not found (renamed: rule D6 needs an update)')
+    fn = repo.fn(entry)
+    for thr, capkind, rel in itertools.product((0, 1e-8), ('none', 'int', 'numpy integer'), (True, False)):
+        if not rel and not thr:
+            continue
+        scen = f'truncated_svd(threshold={thr}, max_rank={capkind}, rel_truncation={rel})'
+
+        def body(sc):
+            m, n = sc.atom('m'), sc.atom('n')
+            x = Arr([m, n], None, 'complex', None, {'role': 'matrix'}, 'matrix')
+            rho = sc.atom('rho', free=True)
+            sc.rho = rho
+            cap = math.inf if capkind == 'none' else (rho if capkind == 'int' else NpIntSize.wrap(rho))
+            return sc.call(entry, x, threshold=thr, max_rank=cap, rel_truncation=rel)
+        for ch, sc, res, exc in l2.explore(repo, body, typed=False):
+            if exc is not None:
+                run.oblige('D6', (entry, scen), False)
+                l2rules.raised_finding(run, 'C04', 'D6', repo, entry, scen, exc)
+                continue
+            l2rules.relative_cut_obligations(run, 'C04', 'D6', repo, sc, scen, {'utils'}, expected=[thr] if thr else None)
+            bad = []
+            if not (isinstance(res, tuple) and len(res) == 3 and all(isinstance(r_, Arr) for r_ in res)):
+                raise AnalysisError(f'{scen}: the result is not (u, s, v)')
+            u, s, v = res
+            if not (u.ndim == 2 and s.ndim == 1 and v.ndim == 2 and sz_eq(u.shape[1], s.shape[0]) and sz_eq(v.shape[0], s.shape[0])):
+                bad.append(f'u, s, v have shapes {u.shape}, {s.shape}, {v.shape}: they do not meet in one bond')
+            else:
+                if capkind != 'none' and not l2rules.rank_le(sc, s.shape[0], sc.rho):
+                    bad.append(f'the returned rank {s.shape[0]} is not bounded by max_rank (given as a {capkind})')
+                bad += l2rules.cut_respected(sc, [u])
+                prod = mx.mul(mx.mul(mx.of(u), s.tags.get('mx')), mx.of(v)) if s.tags.get('mx') is not None else None
+                if prod is not None:
+                    full = mx.untruncate(prod)
+                    if full is not None and mx.fully_known(tuple(f for f in prod if f[0] != 'trunc')) and len(full) == 1 and full[0][0] == 'src':
+                        pass
+                    elif full is not None and not any(f[0] == 'src' for f in full):
+                        bad.append(f'u diag(s) v (truncation undone) is  {mx.show(full)}, not the decomposed matrix')
+            run.oblige('D6', (entry, scen, tuple(ch)), not bad)
+            if bad:
+                run.add(Finding('C04', 'D6', fn.where, 'truncated SVD', f'{scen}: ' + '; '.join(sorted(set(bad))[:3]), fn.file, fn.node.lineno))
+
+
 # ------------------------------------------------------------------------------------------------ C04
 def check_c04(repo, tier):
     run = Run('C04', tier, repo, 'Truncating construction and orthonormalisation interpreted from source over symbolic arrays with a symbolic rank cap / per-bond cap list; '
@@ -210,6 +258,8 @@ def check_c04(repo, tier):
     run.rule('D3', 'triple integrity at every truncation site of the repository: u columns, s and v rows are restricted by the same selector (shapes and bond identity agree), the '
              'remainder is diag(s) v (resp. u diag(s)) of that decomposition')
     run.rule('D4', 'threshold == 0 and max_rank == inf take no truncating branch (no selector applied to any factor)')
+    run.rule('D6', 'utils.truncated_svd: u, s, v meet in one bond; with max_rank = r (Python int or NumPy integer) the returned rank is bounded by r, with a threshold by the number of '
+             'singular values that pass the (relative, or if asked absolute) test, with both by both; untruncated: u diag(s) v is the matrix')
     run.rule('D5', 'the truncating routines do not modify their option arguments (threshold, per-bond cap list) in place')
     run.trusted = ['thin SVD facts', 'NumPy transfer functions']
     orders = (2, 3, 4) if tier == 'thorough' else (2, 3)
@@ -271,7 +321,8 @@ def check_c04(repo, tier):
                 return sc.method(a, 'ortho_left', threshold=thr, max_rank=cap)
             for ch, sc, res, exc in l2.explore(repo, body, typed=True):
                 l2rules.typing_obligations(run, 'C04', 'D3', repo, sc, scen, {TTM})
-                l2rules.relative_cut_obligations(run, 'C04', 'D3', repo, sc, scen, {TTM})
+                # (and the cut uses the threshold the caller asked for, not a rescaled one: the documented meaning of `threshold` is the relative cut of every decomposition)
+                l2rules.relative_cut_obligations(run, 'C04', 'D3', repo, sc, scen, {TTM}, expected=[thr] if thr else None)
                 if exc is not None:
                     run.oblige('D3', (entry, scen), False)
                     l2rules.raised_finding(run, 'C04', 'D3', repo, entry, scen, exc)
@@ -310,6 +361,7 @@ def check_c04(repo, tier):
                     run.oblige('D4', (entry, scen), not cut)
                     if cut:
                         run.add(finding(entry, 'D4 exactness without truncation parameters', f'{scen}: a decomposition is truncated although threshold == 0 and max_rank == inf'))
+    truncated_svd_rule(run, repo, tier)
     truncation_sites(run, repo, tier)
     # D5: the option arguments (threshold, per-bond cap list) are not modified in place: a caps list that is overwritten with the ranks actually reached would cap a later,
     # higher-rank tensor train below what the caller asked for
